@@ -5,16 +5,174 @@ From Lou Require Import Gen.GMeta Model.Meta.
 Import ListNotations.
 Local Open Scope Z_scope.
 
+(* lia sees [@cons feat] and [@cons (N * list N)] as different atoms *)
+Ltac flia := unfold feat in *; lia.
+
+(* ---------- matchLanguageTags ---------- *)
+
+Lemma walk_nil_range : forall tag q,
+  tags_walk tag [] q = q + L_EXTRA * Z.of_nat (length tag).
+Proof.
+  induction tag as [|t tag IH]; intros q; cbn [tags_walk length].
+  - lia.
+  - rewrite IH. rewrite Nat2Z.inj_succ. unfold L_EXTRA. lia.
+Qed.
+
+Lemma walk_prefix : forall r e q,
+  tags_walk (r ++ e) r q = q + L_EXTRA * Z.of_nat (length e).
+Proof.
+  induction r as [|a r IH]; intros e q.
+  - cbn [app]. apply walk_nil_range.
+  - cbn [app tags_walk]. rewrite N.eqb_refl. apply IH.
+Qed.
+
+Lemma walk_refl : forall t q, tags_walk t t q = q.
+Proof.
+  intros t q. pose proof (walk_prefix t [] q) as H. rewrite app_nil_r in H.
+  rewrite H. cbn [length]. lia.
+Qed.
+
+(* if (!tag) return 0: a range with more subtags than the tag never matches *)
+Lemma walk_short : forall tag range q,
+  (length tag < length range)%nat -> tags_walk tag range q = 0.
+Proof.
+  induction tag as [|t tag IH]; intros range q Hlen.
+  - destruct range as [|r range]; [cbn [length] in Hlen; lia|]. reflexivity.
+  - destruct range as [|r range]; [cbn [length] in Hlen; lia|].
+    cbn [tags_walk]. cbn [length] in Hlen.
+    destruct (N.eqb t r) eqn:Etr.
+    + apply IH. lia.
+    + destruct (single t) eqn:Es; [reflexivity|].
+      apply IH. cbn [length]. lia.
+Qed.
+
+(* subtags of the tag that the range does not mention are skipped at the cost of EXTRA each,
+   provided none of them is one character long *)
+Lemma walk_subseq : forall tag range q,
+  subseq range tag = true ->
+  forallb (fun s => negb (single s)) tag = true ->
+  tags_walk tag range q = q + L_EXTRA * (Z.of_nat (length tag) - Z.of_nat (length range)).
+Proof.
+  induction tag as [|t tag IH]; intros range q Hsub Hns.
+  - destruct range as [|r range]; [|cbn [subseq] in Hsub; discriminate Hsub].
+    cbn [tags_walk length]. lia.
+  - destruct range as [|r range].
+    + rewrite walk_nil_range. cbn [length]. lia.
+    + cbn [forallb] in Hns. apply andb_prop in Hns. destruct Hns as [Ht Hns].
+      apply negb_true_iff in Ht.
+      cbn [subseq] in Hsub. cbn [tags_walk].
+      destruct (N.eqb_spec t r) as [Etr|Etr].
+      * subst r. rewrite N.eqb_refl in Hsub.
+        rewrite (IH range q Hsub Hns). cbn [length]. rewrite !Nat2Z.inj_succ. lia.
+      * assert (Ert : N.eqb r t = false) by (apply N.eqb_neq; congruence).
+        rewrite Ert in Hsub. rewrite Ht.
+        rewrite (IH (r :: range) (q + L_EXTRA) Hsub Hns).
+        cbn [length]. rewrite !Nat2Z.inj_succ. unfold L_EXTRA. lia.
+Qed.
+
+Lemma no_wild_head_inv : forall v,
+  no_wild_head v = true -> exists s v', v = s :: v' /\ is_wild s = false.
+Proof.
+  intros [|s v'] H; cbn [no_wild_head] in H; [discriminate H|].
+  exists s, v'. split; [reflexivity|]. apply negb_true_iff. exact H.
+Qed.
+
+Lemma match_same : forall t, no_wild_head t = true -> match_tags t t = L_POS_MATCH.
+Proof.
+  intros t H. destruct (no_wild_head_inv t H) as (s & t' & Ht & Hw). subst t.
+  cbn [match_tags]. rewrite Hw, N.eqb_refl. apply walk_refl.
+Qed.
+
+Lemma match_self_cases : forall t, t <> [] ->
+  match_tags t t = L_POS_MATCH \/ match_tags t t = L_POS_MATCH + L_EXTRA.
+Proof.
+  intros [|s t'] H; [congruence|]. cbn [match_tags].
+  destruct (is_wild s).
+  - right. apply walk_refl.
+  - left. rewrite N.eqb_refl. apply walk_refl.
+Qed.
+
+Lemma match_prefix : forall r e, no_wild_head r = true ->
+  match_tags (r ++ e) r = L_POS_MATCH + L_EXTRA * Z.of_nat (length e).
+Proof.
+  intros r e H. destruct (no_wild_head_inv r H) as (s & r' & Hr & Hw). subst r.
+  cbn [app match_tags]. rewrite Hw, N.eqb_refl. apply walk_prefix.
+Qed.
+
+Lemma match_subseq : forall s t' r',
+  is_wild s = false -> subseq r' t' = true ->
+  forallb (fun x => negb (single x)) t' = true ->
+  match_tags (s :: t') (s :: r') =
+  L_POS_MATCH + L_EXTRA * (Z.of_nat (length t') - Z.of_nat (length r')).
+Proof.
+  intros s t' r' Hw Hsub Hns. cbn [match_tags]. rewrite Hw, N.eqb_refl.
+  apply walk_subseq; assumption.
+Qed.
+
+Lemma match_short : forall tag range,
+  (length tag < length range)%nat -> match_tags tag range = 0.
+Proof.
+  intros [|t tag] [|r range] Hlen; try reflexivity.
+  cbn [length] in Hlen. cbn [match_tags].
+  assert (Hw : forall q, tags_walk tag range q = 0) by (intros q; apply walk_short; lia).
+  destruct (is_wild r); [apply Hw|]. destruct (N.eqb t r); [apply Hw|reflexivity].
+Qed.
+
+Lemma match_diff_head : forall a t' b r',
+  is_wild b = false -> a <> b -> match_tags (a :: t') (b :: r') = 0.
+Proof.
+  intros a t' b r' Hw Hab. cbn [match_tags]. rewrite Hw.
+  assert (E : N.eqb a b = false) by (apply N.eqb_neq; exact Hab).
+  rewrite E. reflexivity.
+Qed.
+
+(* ---------- the language loop of matchFeatureLists ---------- *)
+
+Lemma lang_loop_hit : forall v1 (k : N) v g el,
+  match_tags v1 v = L_POS_MATCH ->
+  lang_loop v1 ((k, v) :: g) W_NEG_MATCH el = lang_loop v1 g L_POS_MATCH el.
+Proof. intros v1 k v g el H. cbn [lang_loop]. rewrite H. reflexivity. Qed.
+
+Lemma lang_best_one : forall v1 k v,
+  lang_best v1 [(k, v)] = if match_tags v1 v >? 0 then match_tags v1 v else W_NEG_MATCH.
+Proof.
+  intros v1 k v. unfold lang_best. cbn [lang_loop].
+  destruct (match_tags v1 v >? 0) eqn:Epos.
+  - pose proof Epos as Hpos. apply Z.gtb_lt in Hpos.
+    assert (E2 : match_tags v1 v >? W_NEG_MATCH = true)
+      by (apply Z.gtb_lt; unfold W_NEG_MATCH; lia).
+    rewrite E2. cbn [andb fst snd]. rewrite Epos.
+    unfold lang_penalty. change (Z.quot (0 + 4) 5) with 0. lia.
+  - cbn [andb]. destruct (match_tags v1 v =? 0); cbn [fst snd]; reflexivity.
+Qed.
+
+Lemma lang_loop_zero : forall v1 (k : N) vs g best el,
+  (forall v, In v vs -> match_tags v1 v = 0) ->
+  lang_loop v1 (map (pair k) vs ++ g) best el =
+  lang_loop v1 g best (el + W_EXTRA * Z.of_nat (length vs)).
+Proof.
+  intros v1 k vs g. induction vs as [|v vs IH]; intros best el Hz.
+  - cbn [map app length]. f_equal. lia.
+  - cbn [map app lang_loop].
+    rewrite (Hz v (or_introl eq_refl)). cbn [andb].
+    change (0 >? 0) with false. change (0 =? 0) with true. cbv iota. cbn [andb].
+    rewrite IH.
+    + f_equal. cbn [length]. rewrite Nat2Z.inj_succ. lia.
+    + intros v' HIn. apply Hz. right. exact HIn.
+Qed.
+
 Section Score.
   Variables kur ucs2 ucs4 : N.
+  Variable islang : N -> bool.
 
-  Notation score := (score kur ucs2 ucs4).
-  Notation mfl := (mfl kur ucs2 ucs4).
+  Notation score := (score kur ucs2 ucs4 islang).
+  Notation mfl := (mfl kur ucs2 ucs4 islang).
   Notation best_of := (best_of kur ucs2 ucs4).
-  Notation find_step := (find_step kur ucs2 ucs4).
-  Notation find_table := (find_table kur ucs2 ucs4).
-  Notation tables_step := (tables_step kur ucs2 ucs4).
-  Notation find_tables := (find_tables kur ucs2 ucs4).
+  Notation key_best := (key_best kur ucs2 ucs4 islang).
+  Notation find_step := (find_step kur ucs2 ucs4 islang).
+  Notation find_table := (find_table kur ucs2 ucs4 islang).
+  Notation tables_step := (tables_step kur ucs2 ucs4 islang).
+  Notation find_tables := (find_tables kur ucs2 ucs4 islang).
 
   (* ---------- lou_findTable: the fold invariant ---------- *)
 
@@ -183,38 +341,110 @@ Section Score.
     cbn [drop_key take_key]. rewrite E. split; reflexivity.
   Qed.
 
+  (* what one feature scores against itself *)
+  Definition self_val (f : feat) : Z := key_best (fst f) (snd f) [f].
+
+  Fixpoint self_sum (q : list feat) : Z :=
+    match q with [] => 0 | f :: q' => self_val f + self_sum q' end.
+
+  Lemma self_sum_cons : forall f q, self_sum (f :: q) = self_val f + self_sum q.
+  Proof. reflexivity. Qed.
+
   Lemma mfl_self : forall q fuel acc,
     strictly_sorted q = true -> (length q < fuel)%nat ->
-    mfl fuel q q acc = acc + W_POS_MATCH * Z.of_nat (length q).
+    mfl fuel q q acc = acc + self_sum q.
   Proof.
     induction q as [|[k v] q IH]; intros fuel acc Hs Hf;
       (destruct fuel as [|fuel]; [cbn [length] in Hf; lia|]).
-    - cbn [Meta.mfl length]. unfold W_POS_MATCH. lia.
+    - cbn [Meta.mfl self_sum]. lia.
     - cbn [Meta.mfl]. rewrite N.ltb_irrefl.
       destruct (ss_keys k v q Hs) as [Hd Ht]. rewrite Hd, Ht.
-      cbn [Meta.best_of]. unfold W_NEG_MATCH at 1.
-      change (-100 <? 0) with true. cbv iota. rewrite N.eqb_refl.
       rewrite IH.
-      + cbn [length]. rewrite Nat2Z.inj_succ. unfold W_POS_MATCH. lia.
+      + rewrite self_sum_cons. unfold self_val. cbn [fst snd]. unfold feat. lia.
       + apply ss_tail in Hs. exact Hs.
       + cbn [length] in Hf. lia.
   Qed.
 
+  Lemma self_val_plain : forall k v, islang k = false -> self_val (k, v) = W_POS_MATCH.
+  Proof.
+    intros k v Hl. unfold self_val, Meta.key_best. cbn [fst snd]. rewrite Hl.
+    cbn [Meta.best_of]. unfold W_NEG_MATCH at 1.
+    change (-100 <? 0) with true. cbv iota. rewrite N.eqb_refl. reflexivity.
+  Qed.
+
+  Lemma self_val_lang : forall k v, islang k = true ->
+    self_val (k, v) = if match_tags v v >? 0 then match_tags v v else W_NEG_MATCH.
+  Proof.
+    intros k v Hl. unfold self_val, Meta.key_best. cbn [fst snd]. rewrite Hl.
+    apply lang_best_one.
+  Qed.
+
+  Lemma self_sum_exact : forall q,
+    (forall k v, In (k, v) q -> islang k = true -> no_wild_head v = true) ->
+    self_sum q = W_POS_MATCH * Z.of_nat (length q).
+  Proof.
+    induction q as [|[k v] q IH]; intros Hok.
+    - cbn [self_sum length]. lia.
+    - rewrite self_sum_cons. cbn [length]. rewrite Nat2Z.inj_succ. rewrite IH.
+      + assert (Hv : self_val (k, v) = W_POS_MATCH).
+        { destruct (islang k) eqn:Hl.
+          - rewrite (self_val_lang k v Hl).
+            rewrite (match_same v (Hok k v (or_introl eq_refl) Hl)).
+            unfold L_POS_MATCH, W_POS_MATCH. reflexivity.
+          - apply self_val_plain. exact Hl. }
+        rewrite Hv. lia.
+      + intros k' v' HIn. apply Hok. right. exact HIn.
+  Qed.
+
+  Lemma self_sum_bound : forall q,
+    (forall k v, In (k, v) q -> islang k = true -> v <> []) ->
+    (L_POS_MATCH + L_EXTRA) * Z.of_nat (length q) <= self_sum q <= W_POS_MATCH * Z.of_nat (length q).
+  Proof.
+    induction q as [|[k v] q IH]; intros Hok.
+    - cbn [self_sum length]. lia.
+    - rewrite self_sum_cons. cbn [length]. rewrite Nat2Z.inj_succ.
+      assert (Hq : (L_POS_MATCH + L_EXTRA) * Z.of_nat (length q) <= self_sum q
+                   <= W_POS_MATCH * Z.of_nat (length q)).
+      { apply IH. intros k' v' HIn. apply Hok. right. exact HIn. }
+      assert (Hv : L_POS_MATCH + L_EXTRA <= self_val (k, v) <= W_POS_MATCH).
+      { destruct (islang k) eqn:Hl.
+        - rewrite (self_val_lang k v Hl).
+          destruct (match_self_cases v (Hok k v (or_introl eq_refl) Hl)) as [E|E];
+            rewrite E; unfold L_POS_MATCH, L_EXTRA, W_POS_MATCH; cbn; lia.
+        - rewrite (self_val_plain k v Hl). unfold L_POS_MATCH, L_EXTRA, W_POS_MATCH. lia. }
+      lia.
+  Qed.
+
+  (* no language value starts with the wildcard: 10 per feature, as for plain keys *)
   Lemma exact_score_l : forall q,
     strictly_sorted q = true -> q <> [] ->
+    (forall k v, In (k, v) q -> islang k = true -> no_wild_head v = true) ->
     score q q = W_POS_MATCH * Z.of_nat (length q).
   Proof.
-    intros q Hs _. unfold Meta.score. rewrite mfl_self; [lia|exact Hs|lia].
+    intros q Hs _ Hok. unfold Meta.score. rewrite mfl_self; [|exact Hs|lia].
+    rewrite (self_sum_exact q Hok). apply Z.add_0_l.
+  Qed.
+
+  (* any language values (a wildcard head costs EXTRA): between 8 and 10 per feature *)
+  Lemma exact_score_bound_l : forall q,
+    strictly_sorted q = true -> q <> [] ->
+    (forall k v, In (k, v) q -> islang k = true -> v <> []) ->
+    (L_POS_MATCH + L_EXTRA) * Z.of_nat (length q) <= score q q <= W_POS_MATCH * Z.of_nat (length q).
+  Proof.
+    intros q Hs _ Hok. unfold Meta.score. rewrite mfl_self; [|exact Hs|lia].
+    pose proof (self_sum_bound q Hok) as H. unfold feat in *. lia.
   Qed.
 
   Lemma exact_found_l : forall index q n,
-    strictly_sorted q = true -> q <> [] -> In (n, q) index ->
+    strictly_sorted q = true -> q <> [] ->
+    (forall k v, In (k, v) q -> islang k = true -> v <> []) ->
+    In (n, q) index ->
     find_table index q <> None.
   Proof.
-    intros index q n Hs Hne HIn.
+    intros index q n Hs Hne Hok HIn.
     assert (Hp : score q q > 0).
-    { rewrite (exact_score_l q Hs Hne). unfold W_POS_MATCH.
-      destruct q as [|a q]; [congruence|]. cbn [length]. lia. }
+    { pose proof (exact_score_bound_l q Hs Hne Hok) as H. unfold L_POS_MATCH, L_EXTRA in H.
+      destruct q as [|a q]; [congruence|]. cbn [length] in H. lia. }
     destruct (find_table_ge index q n q HIn Hp) as (n2 & f2 & Hf & _ & _).
     rewrite Hf. discriminate.
   Qed.
@@ -242,8 +472,72 @@ Section Score.
 
   (* ---------- one queried feature ---------- *)
 
-  Lemma single_feature_order_l : forall k v v' k' w,
-    v <> v' -> (k =? kur)%N = false -> k <> k' ->
+  Lemma score_missing : forall k v, score [(k, v)] [] = W_UNDEFINED.
+  Proof. intros k v. unfold Meta.score. cbn [length Nat.add Meta.mfl]. lia. Qed.
+
+  Lemma take_key_map : forall (k : N) vs, take_key k (map (pair k) vs) = map (pair k) vs.
+  Proof.
+    intros k vs. induction vs as [|v vs IH]; [reflexivity|].
+    cbn [map take_key]. rewrite N.eqb_refl, IH. reflexivity.
+  Qed.
+
+  Lemma drop_key_map : forall (k : N) vs, drop_key k (map (pair k) vs) = [].
+  Proof.
+    intros k vs. induction vs as [|v vs IH]; [reflexivity|].
+    cbn [map drop_key]. rewrite N.eqb_refl. exact IH.
+  Qed.
+
+  (* one queried key against a table that only has entries of that key *)
+  Lemma score_group : forall k v1 vs, vs <> [] ->
+    score [(k, v1)] (map (pair k) vs) = key_best k v1 (map (pair k) vs).
+  Proof.
+    intros k v1 [|v vs] Hne; [congruence|].
+    unfold Meta.score. cbn [map length Nat.add Meta.mfl]. rewrite N.ltb_irrefl.
+    rewrite take_key_map, drop_key_map. cbn [Meta.mfl]. flia.
+  Qed.
+
+  Lemma score_one : forall k v1 v, score [(k, v1)] [(k, v)] = key_best k v1 [(k, v)].
+  Proof. intros k v1 v. apply (score_group k v1 [v]). discriminate. Qed.
+
+  (* an unrelated extra field of the table costs EXTRA *)
+  Lemma score_plus_extra : forall k v1 v k' w, k <> k' ->
+    score [(k, v1)] (if (k <? k')%N then [(k, v); (k', w)] else [(k', w); (k, v)]) =
+    key_best k v1 [(k, v)] + W_EXTRA.
+  Proof.
+    intros k v1 v k' w Hkk.
+    destruct (N.ltb_spec k k') as [Hlt|Hge].
+    - assert (E : N.eqb k' k = false) by (apply N.eqb_neq; lia).
+      unfold Meta.score. cbn [length Nat.add Meta.mfl Meta.drop_key Meta.take_key].
+      rewrite N.ltb_irrefl, E. cbn [Meta.mfl Meta.drop_key]. flia.
+    - assert (Hlt : (k' < k)%N) by lia.
+      assert (E : N.eqb k k' = false) by (apply N.eqb_neq; lia).
+      assert (E1 : N.ltb k k' = false) by (apply N.ltb_ge; lia).
+      assert (E2 : N.ltb k' k = true) by (apply N.ltb_lt; lia).
+      unfold Meta.score. cbn [length Nat.add Meta.mfl Meta.drop_key Meta.take_key].
+      rewrite E1, E2, E. rewrite N.ltb_irrefl. cbn [Meta.mfl Meta.take_key Meta.drop_key]. flia.
+  Qed.
+
+  Lemma key_best_plain_same : forall k v v', islang k = false ->
+    plain_id v = plain_id v' -> key_best k v [(k, v')] = W_POS_MATCH.
+  Proof.
+    intros k v v' Hl Hv. unfold Meta.key_best. rewrite Hl. cbn [Meta.best_of].
+    unfold W_NEG_MATCH at 1. change (-100 <? 0) with true. cbv iota.
+    rewrite Hv, N.eqb_refl. reflexivity.
+  Qed.
+
+  Lemma key_best_plain_diff : forall k v v', islang k = false -> (k =? kur)%N = false ->
+    plain_id v <> plain_id v' -> key_best k v [(k, v')] = W_NEG_MATCH.
+  Proof.
+    intros k v v' Hl Hk Hv. unfold Meta.key_best. rewrite Hl. cbn [Meta.best_of].
+    unfold W_NEG_MATCH at 1. change (-100 <? 0) with true. cbv iota.
+    assert (E : N.eqb (plain_id v) (plain_id v') = false) by (apply N.eqb_neq; exact Hv).
+    rewrite E, Hk. cbn [andb]. reflexivity.
+  Qed.
+
+  (* plain key; values are any lists, compared through their string id *)
+  Lemma single_feature_order_gen : forall k v v' k' w,
+    islang k = false ->
+    plain_id v <> plain_id v' -> (k =? kur)%N = false -> k <> k' ->
     let same := score [(k, v)] [(k, v)] in
     let missing := score [(k, v)] [] in
     let different := score [(k, v)] [(k, v')] in
@@ -251,36 +545,169 @@ Section Score.
       score [(k, v)] (if (k <? k')%N then [(k, v); (k', w)] else [(k', w); (k, v)]) in
     same > missing /\ missing > different /\ same - same_plus_extra = 1 /\ same_plus_extra > missing.
   Proof.
-    intros k v v' k' w Hv Hk Hkk.
-    assert (Hsame : score [(k, v)] [(k, v)] = 10).
-    { unfold Meta.score. cbn [length Nat.add Meta.mfl Meta.drop_key Meta.take_key].
-      rewrite N.ltb_irrefl. cbn [Meta.best_of]. unfold W_NEG_MATCH, W_POS_MATCH.
-      change (-100 <? 0) with true. cbv iota. rewrite N.eqb_refl. reflexivity. }
-    assert (Hmissing : score [(k, v)] [] = -20).
-    { unfold Meta.score. cbn [length Nat.add Meta.mfl]. unfold W_UNDEFINED. reflexivity. }
-    assert (Hdiff : score [(k, v)] [(k, v')] = -100).
-    { unfold Meta.score. cbn [length Nat.add Meta.mfl Meta.drop_key Meta.take_key].
-      rewrite N.ltb_irrefl. cbn [Meta.best_of]. unfold W_NEG_MATCH, W_POS_MATCH.
-      change (-100 <? 0) with true. cbv iota.
-      assert (E : N.eqb v v' = false) by (apply N.eqb_neq; exact Hv).
-      rewrite E, Hk. cbn [andb]. reflexivity. }
-    assert (Hextra :
-      score [(k, v)] (if (k <? k')%N then [(k, v); (k', w)] else [(k', w); (k, v)]) = 9).
-    { destruct (N.ltb_spec k k') as [Hlt|Hge].
-      - assert (E : N.eqb k' k = false) by (apply N.eqb_neq; lia).
-        unfold Meta.score. cbn [length Nat.add Meta.mfl Meta.drop_key Meta.take_key].
-        rewrite N.ltb_irrefl, E. cbn [Meta.best_of Meta.mfl Meta.drop_key].
-        unfold W_NEG_MATCH, W_POS_MATCH, W_EXTRA.
-        change (-100 <? 0) with true. cbv iota. rewrite N.eqb_refl. reflexivity.
-      - assert (Hlt : (k' < k)%N) by lia.
-        assert (E : N.eqb k k' = false) by (apply N.eqb_neq; lia).
-        assert (E1 : N.ltb k k' = false) by (apply N.ltb_ge; lia).
-        assert (E2 : N.ltb k' k = true) by (apply N.ltb_lt; lia).
-        unfold Meta.score. cbn [length Nat.add Meta.mfl Meta.drop_key Meta.take_key].
-        rewrite E1, E2, E. rewrite N.ltb_irrefl. cbn [Meta.best_of].
-        unfold W_NEG_MATCH, W_POS_MATCH, W_EXTRA.
-        change (-100 <? 0) with true. cbv iota. rewrite N.eqb_refl. reflexivity. }
-    cbv zeta. rewrite Hsame, Hmissing, Hdiff, Hextra. lia.
+    intros k v v' k' w Hl Hv Hk Hkk. cbv zeta.
+    rewrite (score_plus_extra k v v k' w Hkk), !score_one, score_missing.
+    rewrite (key_best_plain_same k v v Hl eq_refl).
+    rewrite (key_best_plain_diff k v v' Hl Hk Hv).
+    unfold W_POS_MATCH, W_NEG_MATCH, W_UNDEFINED, W_EXTRA. lia.
+  Qed.
+
+  (* ... in particular for the singleton values the tokeniser produces *)
+  Lemma single_feature_order_l : forall k v v' k' w,
+    islang k = false ->
+    v <> v' -> (k =? kur)%N = false -> k <> k' ->
+    let same := score [(k, [v])] [(k, [v])] in
+    let missing := score [(k, [v])] [] in
+    let different := score [(k, [v])] [(k, [v'])] in
+    let same_plus_extra :=
+      score [(k, [v])] (if (k <? k')%N then [(k, [v]); (k', w)] else [(k', w); (k, [v])]) in
+    same > missing /\ missing > different /\ same - same_plus_extra = 1 /\ same_plus_extra > missing.
+  Proof.
+    intros k v v' k' w Hl Hv Hk Hkk.
+    apply (single_feature_order_gen k [v] [v'] k' w Hl); [|exact Hk|exact Hkk].
+    cbn [plain_id]. exact Hv.
+  Qed.
+
+  (* ---------- one queried language feature ---------- *)
+
+  Lemma key_best_lang_one : forall k v1 v, islang k = true ->
+    key_best k v1 [(k, v)] = if match_tags v1 v >? 0 then match_tags v1 v else W_NEG_MATCH.
+  Proof. intros k v1 v Hl. unfold Meta.key_best. rewrite Hl. apply lang_best_one. Qed.
+
+  (* a table range r that is a prefix of the queried tag r ++ e (table "en", query "en-US"):
+     two points less per additional subtag; with five or more the table is rejected *)
+  Lemma lang_prefix_score : forall k r e,
+    islang k = true -> no_wild_head r = true ->
+    score [(k, r ++ e)] [(k, r)] =
+    if (length e <? 5)%nat then L_POS_MATCH + L_EXTRA * Z.of_nat (length e) else W_NEG_MATCH.
+  Proof.
+    intros k r e Hl Hr. rewrite score_one, (key_best_lang_one _ _ _ Hl), (match_prefix r e Hr).
+    unfold L_POS_MATCH, L_EXTRA.
+    destruct (Nat.ltb_spec (length e) 5) as [Hlt|Hge].
+    - assert (E : 10 + -2 * Z.of_nat (length e) >? 0 = true) by (apply Z.gtb_lt; lia).
+      rewrite E. reflexivity.
+    - assert (E : 10 + -2 * Z.of_nat (length e) >? 0 = false)
+        by (rewrite Z.gtb_ltb; apply Z.ltb_ge; lia).
+      rewrite E. reflexivity.
+  Qed.
+
+  Lemma lang_single_feature_order_l : forall k r e d k' w,
+    islang k = true -> no_wild_head r = true -> no_wild_head d = true ->
+    hd 0%N d <> hd 0%N r ->
+    e <> [] -> (length e <= 4)%nat -> k <> k' ->
+    let t := r ++ e in
+    let same := score [(k, t)] [(k, t)] in
+    let prefix := score [(k, t)] [(k, r)] in
+    let missing := score [(k, t)] [] in
+    let different := score [(k, t)] [(k, d)] in
+    let same_plus_extra :=
+      score [(k, t)] (if (k <? k')%N then [(k, t); (k', w)] else [(k', w); (k, t)]) in
+    same = L_POS_MATCH /\
+    prefix = L_POS_MATCH + L_EXTRA * Z.of_nat (length e) /\
+    same > prefix /\ prefix > missing /\ missing > different /\ different = W_NEG_MATCH /\
+    same - same_plus_extra = 1 /\ same_plus_extra > prefix.
+  Proof.
+    intros k r e d k' w Hl Hr Hd Hdr Hne Hlen Hkk. cbv zeta.
+    assert (Ht : no_wild_head (r ++ e) = true).
+    { destruct (no_wild_head_inv r Hr) as (s & r' & Er & Hw). subst r. exact Hr. }
+    assert (Hpre : score [(k, r ++ e)] [(k, r)] = L_POS_MATCH + L_EXTRA * Z.of_nat (length e)).
+    { rewrite (lang_prefix_score k r e Hl Hr).
+      assert (E : (length e <? 5)%nat = true) by (apply Nat.ltb_lt; lia).
+      rewrite E. reflexivity. }
+    assert (Hdiff : match_tags (r ++ e) d = 0).
+    { destruct (no_wild_head_inv r Hr) as (s & r' & Er & Hw). subst r.
+      destruct (no_wild_head_inv d Hd) as (b & d' & Ed & Hwd). subst d.
+      cbn [hd] in Hdr. cbn [app]. apply match_diff_head; [exact Hwd|congruence]. }
+    rewrite (score_plus_extra k (r ++ e) (r ++ e) k' w Hkk), Hpre, !score_one, score_missing.
+    rewrite !(key_best_lang_one _ _ _ Hl), (match_same _ Ht), Hdiff.
+    assert (Hle : 1 <= Z.of_nat (length e) <= 4).
+    { destruct e as [|x e]; [congruence|]. cbn [length] in Hlen |- *. lia. }
+    unfold L_POS_MATCH, L_EXTRA, W_NEG_MATCH, W_UNDEFINED, W_EXTRA.
+    change (10 >? 0) with true. change (0 >? 0) with false. cbv iota.
+    repeat split; lia.
+  Qed.
+
+  (* the query may be more specific than the table: subtags of the queried tag that the table's
+     range skips (none of them one character long) cost two points each; the table is still
+     listed by lou_findTables and a table is found *)
+  Lemma lang_more_specific_l : forall k s t' r' index n,
+    islang k = true -> is_wild s = false ->
+    subseq r' t' = true -> forallb (fun x => negb (single x)) t' = true ->
+    (length t' - length r' <= 4)%nat ->
+    In (n, [(k, s :: r')]) index ->
+    score [(k, s :: t')] [(k, s :: r')] =
+      L_POS_MATCH + L_EXTRA * (Z.of_nat (length t') - Z.of_nat (length r')) /\
+    score [(k, s :: t')] [(k, s :: r')] > 0 /\
+    In n (find_tables index [(k, s :: t')]) /\
+    find_table index [(k, s :: t')] <> None.
+  Proof.
+    intros k s t' r' index n Hl Hw Hsub Hns Hlen HIn.
+    assert (Hlenle : (length r' <= length t')%nat).
+    { clear - Hsub. revert r' Hsub. induction t' as [|b t' IH]; intros [|a r'] Hsub;
+        cbn [length]; try lia.
+      - cbn [subseq] in Hsub. discriminate Hsub.
+      - cbn [subseq] in Hsub. destruct (N.eqb a b).
+        + specialize (IH r' Hsub). lia.
+        + specialize (IH (a :: r') Hsub). cbn [length] in IH. lia. }
+    assert (Hs : score [(k, s :: t')] [(k, s :: r')] =
+                 L_POS_MATCH + L_EXTRA * (Z.of_nat (length t') - Z.of_nat (length r'))).
+    { rewrite score_one, (key_best_lang_one _ _ _ Hl), (match_subseq s t' r' Hw Hsub Hns).
+      unfold L_POS_MATCH, L_EXTRA.
+      assert (E : 10 + -2 * (Z.of_nat (length t') - Z.of_nat (length r')) >? 0 = true)
+        by (apply Z.gtb_lt; lia).
+      rewrite E. reflexivity. }
+    assert (Hp : score [(k, s :: t')] [(k, s :: r')] > 0).
+    { rewrite Hs. unfold L_POS_MATCH, L_EXTRA. lia. }
+    split; [exact Hs|]. split; [exact Hp|]. split.
+    - apply find_tables_positive_l. exists [(k, s :: r')]. split; [exact HIn|exact Hp].
+    - destruct (find_table_ge index _ n _ HIn Hp) as (n2 & f2 & Hf & _ & _).
+      rewrite Hf. discriminate.
+  Qed.
+
+  (* the converse does not hold: a table range with more subtags than the queried tag (table
+     "en-US", query "en") is a negative match *)
+  Lemma lang_longer_range_l : forall k t r,
+    islang k = true -> (length t < length r)%nat ->
+    score [(k, t)] [(k, r)] = W_NEG_MATCH.
+  Proof.
+    intros k t r Hl Hlen. rewrite score_one, (key_best_lang_one _ _ _ Hl).
+    rewrite (match_short t r Hlen). reflexivity.
+  Qed.
+
+  (* one entry with the queried tag among n entries of the same key that do not match: the
+     extra languages cost (n * EXTRA + 4) / 5, rounded toward zero -- nothing up to 8 *)
+  Lemma lang_extra_languages_l : forall k t pre post,
+    islang k = true -> no_wild_head t = true ->
+    (forall v, In v pre -> match_tags t v = 0) ->
+    (forall v, In v post -> match_tags t v = 0) ->
+    let n := Z.of_nat (length pre + length post) in
+    let s := score [(k, t)] (map (pair k) (pre ++ t :: post)) in
+    s = L_POS_MATCH + lang_penalty (n * W_EXTRA) /\
+    (n <= 8 -> s = L_POS_MATCH) /\
+    (n >= 9 -> s < L_POS_MATCH) /\
+    5 * (L_POS_MATCH - s) <= n.
+  Proof.
+    intros k t pre post Hl Ht Hpre Hpost. cbv zeta.
+    assert (Hs : score [(k, t)] (map (pair k) (pre ++ t :: post)) =
+                 L_POS_MATCH + lang_penalty (Z.of_nat (length pre + length post) * W_EXTRA)).
+    { rewrite score_group by (destruct pre; discriminate).
+      unfold Meta.key_best. rewrite Hl. unfold lang_best.
+      rewrite map_app. rewrite (lang_loop_zero t k pre _ _ _ Hpre).
+      cbn [map]. rewrite (lang_loop_hit t k t _ _ (match_same t Ht)).
+      pose proof (lang_loop_zero t k post [] L_POS_MATCH
+                    (0 + W_EXTRA * Z.of_nat (length pre)) Hpost) as Hz.
+      rewrite app_nil_r in Hz. rewrite Hz. cbn [lang_loop fst snd].
+      unfold L_POS_MATCH at 1. change (10 >? 0) with true. cbv iota.
+      f_equal. f_equal. rewrite Nat2Z.inj_add. lia. }
+    rewrite Hs. unfold lang_penalty, L_POS_MATCH, W_EXTRA.
+    set (n := Z.of_nat (length pre + length post)).
+    assert (Hn : 0 <= n) by (unfold n; lia).
+    pose proof (Z.quot_rem' (n * -1 + 4) 5) as Hqr.
+    assert (Hsign : n <= 4 -> 0 <= Z.rem (n * -1 + 4) 5 < 5).
+    { intros H. apply Z.rem_bound_pos_pos; lia. }
+    assert (Hsign2 : n >= 4 -> -5 < Z.rem (n * -1 + 4) 5 <= 0).
+    { intros H. pose proof (Z.rem_bound_pos_neg (n * -1 + 4) 5 ltac:(lia) ltac:(lia)). lia. }
+    split; [reflexivity|]. repeat split; intros; lia.
   Qed.
 End Score.
 
@@ -375,4 +802,16 @@ Proof.
     + left. subst. reflexivity.
     + right. apply (Hmin v' line' HIn'). intros Heq. injection Heq as _ Hl'. contradiction.
   - right. apply (Hmin v' line' HIn'). intros Heq. injection Heq as Hv' _. contradiction.
+Qed.
+
+(* ---- the regenerated operators of the language branch are the model's ---- *)
+Lemma source_language_operators_l :
+  lang_head_is_reference = true /\ lang_walk_is_reference = true /\ lang_branch_tests_every_entry = true /\
+  (forall q best, src_lang_keeps q best = ((q >? 0) && (q >? best))) /\
+  (forall q, src_lang_counts_extra q = (q =? 0)) /\
+  (forall best, src_lang_penalty_applies best = (best >? 0)) /\
+  (forall e, src_lang_penalty e = lang_penalty e).
+Proof.
+  repeat split; try reflexivity.
+  intro q. unfold src_lang_counts_extra. destruct (q =? 0); reflexivity.
 Qed.
